@@ -180,14 +180,22 @@ theorem C12_engine_retry (c : Ctx) (s : St) (obs : List Obs) (d : DagRef) (n : N
     (below : List Frame) (k : Nat) (kw : Kwargs) (inv : Nat) (e : Exc)
     (h : decide (c.P.cfg n) k (.raise e) = .retry) :
     nodeAfterBody c s obs d n force below k kw inv (.raise e) =
-      (if (c.P.cfg n).delayEff > 0 then
-         block c s (obs ++ [.ncomplete n (some e)] ++ [.sleep (c.P.cfg n).delayEff])
-           (.node d n force (.sleep k kw inv) :: below) (.sleep n inv k (c.P.cfg n).delayEff)
-       else yieldNow c s (obs ++ [.ncomplete n (some e)]) (.node d n force (.sleep k kw inv) :: below)) := by
+      cbThen c s (obs ++ [.ncomplete n (some e)]) (fun j => .node d n force (.cbRetry j k kw inv) :: below)
+        (c.P.cbYield .ncomplete n) (fun s obs => nodeSleep c s obs d n force below k kw inv) := by
   obtain ⟨e', he, hr, hk⟩ := (decide_retry_iff _ _ _).mp h
   cases he
   have hk' : (k == (c.P.cfg n).attemptsEff) = false := by simpa using hk
   simp [nodeAfterBody, hr, hk']
+
+/-- after the retry's `on_node_complete(error)` the task sleeps `delay` (a bare yield for `delay = 0`) and then
+makes attempt `k + 1` with the same arguments -/
+theorem C12_engine_sleep_then_next_attempt (c : Eng.Ctx) (s : Eng.St) (obs : List Eng.Obs) (d : Eng.DagRef) (n : Node)
+    (force : Bool) (below : List Eng.Frame) (k : Nat) (kw : Kwargs) (inv : Nat) :
+    Eng.nodeSleep c s obs d n force below k kw inv =
+      if (c.P.cfg n).delayEff > 0 then
+        Eng.block c s (obs ++ [.sleep (c.P.cfg n).delayEff]) (.node d n force (.sleep k kw inv) :: below)
+          (.sleep n inv k (c.P.cfg n).delayEff)
+      else Eng.yieldNow c s obs (.node d n force (.sleep k kw inv) :: below) := rfl
 
 open MLPE.Eng in
 theorem C12_engine_failed (c : Ctx) (s : St) (obs : List Obs) (d : DagRef) (n : Node) (force : Bool)
